@@ -14,12 +14,19 @@ import (
 	"verif/harness/condh"
 	"verif/harness/hv"
 
+	"github.com/bfenetworks/bfe/bfe_basic"
+
 	"github.com/bfenetworks/bfe/bfe_basic/condition"
 	"github.com/bfenetworks/bfe/bfe_util"
 )
 
 func impl(in hv.Val) hv.Val {
 	l := hv.AsList(in)
+	shape := 0
+	if len(l) == 6 { // [9 name args request oracle shape]: incomplete request object
+		shape = int(hv.AsInt(l[5]))
+		l = l[1:5]
+	}
 	name := hv.AsStr(l[0])
 	args := condh.ArgsOf(l[1])
 	style := uint64(len(name))
@@ -30,7 +37,14 @@ func impl(in hv.Val) hv.Val {
 	if err != nil {
 		return hv.Err(1)
 	}
-	return hv.Bool(c.Match(condh.BuildRequest(l[2])))
+	req := condh.BuildRequest(l[2])
+	switch shape {
+	case 1: // session-only request, as mod_key_log / TLS-phase callbacks build it
+		req = &bfe_basic.Request{Session: req.Session, RemoteAddr: req.RemoteAddr, ClientAddr: req.ClientAddr}
+	case 2:
+		req.Session = nil
+	}
+	return hv.Bool(c.Match(req))
 }
 
 // ---------------------------------------------------------------- request generator
@@ -603,6 +617,24 @@ func sweepCase(i int) (string, hv.Val) {
 func gen(r *hv.Rng, i int, tier string) (string, hv.Val) {
 	if i < 1800 { // 25 zones x 12 instants x 6 window placements
 		return sweepCase(i)
+	}
+	if r.Chance(1, 12) { // incomplete request objects (session-only / no session)
+		shape := r.Range(1, 2)
+		names := []string{"default_t", "ses_tls_client_auth", "ses_sip_range", "ses_vip_range", "ses_tls_sni_in", "ses_tls_client_ca_in", "req_method_in",
+			"req_host_in", "req_cip_range", "req_vip_in", "bfe_time_range", "req_path_prefix_in", "req_header_key_in", "req_cookie_value_in"}
+		if shape == 1 {
+			names = append(names, "req_cip_trusted", "req_proto_secure", "ses_tls_client_auth", "default_t")
+		}
+		want := names[r.Intn(len(names))]
+		p := condh.Primitives[0]
+		for _, c := range condh.Primitives {
+			if c.Name == want {
+				p = c
+			}
+		}
+		q := genReq(r, p.Name)
+		args := genArgs(r, p.Name, p.Kinds, q)
+		return "shape-" + p.Name, hv.L{hv.I(9), hv.S(p.Name), condh.ArgsVal(args), q.Val(), condh.Oracle(p.Name, args, q), hv.I(shape)}
 	}
 	p := condh.Primitives[i%len(condh.Primitives)]
 	if r.Chance(1, 4) { // more weight on the string matchers with fold-case arguments
